@@ -734,8 +734,31 @@ class Resolver:
                 return ('fn', strip_generics(op['fn']))
             if 'val' in op:
                 return ('const', op['val'])
+            if 'promoted' in op:
+                pv = self._promoted_value(op['promoted'])
+                if pv is not None:
+                    return pv
+            if 'str' in op:
+                return ('const', op['str'])
             return ('const', op.get('dbg', op.get('raw')))
         return ('unknown', op.get('dbg'))
+
+    def _promoted_value(self, i):
+        """`&CONST` promoted to a static: the constant it refers to (string value where known)."""
+        pr = self.body.b.get('promoted', [])
+        if i >= len(pr):
+            return None
+        for bl in pr[i]:
+            for st in bl['stmts']:
+                if st['k'] == 'assign' and st['rv']['k'] == 'use' and st['rv']['op']['k'] == 'const':
+                    op = st['rv']['op']
+                    if 'str' in op:
+                        return ('const', op['str'])
+                    if 'val' in op:
+                        return ('const', op['val'])
+                    if 'const_def' in op:
+                        return ('const', op['const_def'])
+        return None
 
     def place(self, place, bb, idx):
         e = self.local(place['local'], bb, idx)
